@@ -29,6 +29,7 @@ from .. import REPO, VERIF_DIR
 from ..core import check, short
 from ..gen import expr as G
 from ..mon.trace import HandlerTrace
+from ..mon.typedkeys import KF_TWINS, has_twins, typed
 from ..ref import normal, refsem
 
 RULE = ("histories of 2-30 calls on ONE memoizing mapper instance, drawn from a pool of <= 12 "
@@ -44,8 +45,9 @@ RULE = ("histories of 2-30 calls on ONE memoizing mapper instance, drawn from a 
         "arguments / without a cache, each alone in a fresh process AND 2-6 applications in random "
         "order inside one process.  distinct = typed key of the history; non-trivial = >=2 calls.")
 ASSUMPTIONS = [
-    "two composite nodes that are == but differ in a constant's type (Sum((x,4)), Sum((x,4.0))) "
-    "legitimately share a key; pools containing such a pair are rejected (and counted)",
+    "pools that hold two composite nodes that are == but differ in a constant's type "
+    "(Sum((x,4)), Sum((x,4.0))) are judged like all others; a discrepancy there is attributed to "
+    "the known finding on ==-keyed memo tables only if it vanishes with typed keys",
     "optimizer combinations outside an option's documented precondition (drop_args / drop_kwargs / "
     "inline_cache on subjects that take extra arguments; cache inlining on uncached subjects) are "
     "recorded, not judged",
@@ -162,17 +164,6 @@ def subobjects(pool):
     return out
 
 
-def type_ambiguous(pool):
-    comp = [s for s in subobjects(pool) if isinstance(s, (p.Expression, tuple))]
-    byeq = {}
-    for s in comp:
-        try:
-            byeq.setdefault((type(s), s), set()).add(normal.typed_key(s))
-        except TypeError:
-            pass
-    return any(len(v) > 1 for v in byeq.values())
-
-
 def teq(a, b):
     if isinstance(a, (set, frozenset)) and isinstance(b, (set, frozenset)):
         return a == b
@@ -201,44 +192,67 @@ def c_history(ctx, case):
     pool, hist, flags = case
     env = {"x": 3, "y": -2, "z": 5, "a": [1, 2, 3], "b": 7, "f": lambda *a, **k: sum(a) + 1}
     subst = {"x": V["y"], "y": V["x"], V["z"]: p.Sum((V["x"], 1))}
+    def same(cls):
+        return cls
     pairs = [
-        ("identity+args", CountedRenamer(), lambda: PlainRenamer(), True, True),
-        ("combine+args", CachedLC(), lambda: PlainLC(), True, False),
-        ("collector+args", CachedVC(), lambda: PlainVC(), True, False),
-        ("evaluation", CachedEvaluationMapper(env), lambda: EvaluationMapper(env), False, False),
-        ("dependency", CachedDependencyMapper(**flags), lambda: DependencyMapper(**flags), False, False),
-        ("substitution", CachedSubstitutionMapper(make_subst_func(subst)),
-         lambda: SubstitutionMapper(make_subst_func(subst)), False, False),
-        ("flops", FlopCounter(), lambda: PlainFlops(), False, False),
-        # users of the CSE-caching mix-in: one reused instance vs a fresh one per call
-        ("cse-mixin:evaluator", EvaluationMapper(env), lambda: EvaluationMapper(env), False, False),
-        ("cse-mixin:dependency", DependencyMapper(**flags), lambda: DependencyMapper(**flags),
+        ("identity+args", lambda w: w(CountedRenamer)(), lambda: PlainRenamer(), True, True),
+        ("combine+args", lambda w: w(CachedLC)(), lambda: PlainLC(), True, False),
+        ("collector+args", lambda w: w(CachedVC)(), lambda: PlainVC(), True, False),
+        ("evaluation", lambda w: w(CachedEvaluationMapper)(env), lambda: EvaluationMapper(env),
          False, False),
-        ("cse-mixin:differentiator", DifferentiationMapper(V["x"]),
+        ("dependency", lambda w: w(CachedDependencyMapper)(**flags),
+         lambda: DependencyMapper(**flags), False, False),
+        ("substitution", lambda w: w(CachedSubstitutionMapper)(make_subst_func(subst)),
+         lambda: SubstitutionMapper(make_subst_func(subst)), False, False),
+        ("flops", lambda w: w(FlopCounter)(), lambda: PlainFlops(), False, False),
+        # users of the CSE-caching mix-in: one reused instance vs a fresh one per call
+        ("cse-mixin:evaluator", lambda w: w(EvaluationMapper)(env), lambda: EvaluationMapper(env),
+         False, False),
+        ("cse-mixin:dependency", lambda w: w(DependencyMapper)(**flags),
+         lambda: DependencyMapper(**flags), False, False),
+        ("cse-mixin:differentiator", lambda w: w(DifferentiationMapper)(V["x"]),
          lambda: DifferentiationMapper(V["x"]), False, False),
-        ("cse-mixin:fold", ConstantFoldingMapper(), lambda: ConstantFoldingMapper(), False, False),
-        ("cse-mixin:commfold", CommutativeConstantFoldingMapper(),
+        ("cse-mixin:fold", lambda w: w(ConstantFoldingMapper)(), lambda: ConstantFoldingMapper(),
+         False, False),
+        ("cse-mixin:commfold", lambda w: w(CommutativeConstantFoldingMapper)(),
          lambda: CommutativeConstantFoldingMapper(), False, False),
     ]
-    for name, memo, fresh, takes_args, counted in pairs:
+    twins = has_twins(*pool)
+
+    def replay(name, mk, fresh, takes_args, w):
+        """(index of first differing call or None, got, want, memo) for one pair."""
+        memo = mk(w)
         for i, (ei, a, kw) in enumerate(hist):
             e = pool[ei]
             if not takes_args:
                 a, kw = (), {}
             if name in ("combine+args", "collector+args"):
                 kw = {}
-            ctx.case(None)
-            ctx.count("history_calls")
-            ctx.count("pair:" + name)
             got = outcome(lambda: memo(e, *a, **kw))
             want = outcome(lambda: fresh()(e, *a, **kw))
             if not same_out(got, want):
-                ctx.fail("C05.history", case, f"{name}:differs",
-                         f"{name}: call {i} of a history on one memoizing instance: "
-                         f"({G.src(e)}, args={a}, kwargs={kw}) -> {short(got, 300)}; a fresh "
-                         f"non-memoizing counterpart gives {short(want, 300)}; earlier calls: "
-                         f"{[(G.src(pool[j]), aa, kk) for j, aa, kk in hist[:i]][-4:]}")
-                break
+                return i, (e, a, kw), got, want, memo
+        return None, None, None, None, memo
+
+    for name, mk, fresh, takes_args, counted in pairs:
+        ctx.case(None, n=len(hist))
+        ctx.count("history_calls", len(hist))
+        ctx.count("pair:" + name, len(hist))
+        i, call, got, want, memo = replay(name, mk, fresh, takes_args, same)
+        if i is not None:
+            finding = None
+            if twins:
+                # explanation test: the same history with ONLY the memo keys made typed
+                j = replay(name, mk, fresh, takes_args, typed)[0]
+                if j is None:
+                    finding = KF_TWINS
+            e, a, kw = call
+            ctx.fail("C05.history", case, f"{name}:differs",
+                     f"{name}: call {i} of a history on one memoizing instance: "
+                     f"({G.src(e)}, args={a}, kwargs={kw}) -> {short(got, 300)}; a fresh "
+                     f"non-memoizing counterpart gives {short(want, 300)}; earlier calls: "
+                     f"{[(G.src(pool[j]), aa, kk) for j, aa, kk in hist[:i]][-4:]}",
+                     finding=finding)
         if counted:
             twice = {k: c for k, c in memo.cnt.items() if c > 1}
             ctx.count("keys_counted", len(memo.cnt))
@@ -248,25 +262,36 @@ def c_history(ctx, case):
                          f"{name}: key (type={k[0].__name__}, expr={G.src(k[1])}, args={k[2]}, "
                          f"kwargs={k[3]}) was computed {twice[k]} times on one instance")
     # walk: the cached walker sees each distinct (type, node) once, and the same set
-    cw, pw = SeenCachedWalk(), SeenWalk()
-    try:
+    def walks(w):
+        """[problems] of the cached walker / node counter against the plain walker; with typed
+        keys (w=typed) 'distinct node' means distinct typed structure."""
+        cw, pw, nc = w(SeenCachedWalk)(), SeenWalk(), w(NodeCountMapper)()
         for ei, a, kw in hist:
             cw(pool[ei])
             pw(pool[ei])
+            nc(pool[ei])
+        if w is typed:
+            ident = lambda seen: [normal.typed_key(x) for _, x in seen]  # noqa: E731
+        else:
+            ident = lambda seen: seen  # noqa: E731
+        cs, ps = Counter(ident(cw.seen)), set(ident(pw.seen))
+        out = []
+        if set(cs) != ps or any(v > 1 for v in cs.values()):
+            out.append(("walk:visited-set",
+                        f"CachedWalkMapper over the history visited {len(cs)} distinct nodes (max "
+                        f"multiplicity {max(cs.values())}); the plain walker visited {len(ps)}"))
+        if nc.count != len(ps):
+            out.append(("nodecount:history", f"NodeCountMapper over the history counted "
+                        f"{nc.count}, distinct nodes {len(ps)}"))
+        return out
+    try:
         ctx.case(None)
         ctx.count("pair:walk")
-        cs = Counter(cw.seen)
-        if set(cs) != set(pw.seen) or any(v > 1 for v in cs.values()):
-            ctx.fail("C05.history", case, "walk:visited-set",
-                     f"CachedWalkMapper over the history visited {len(cs)} distinct nodes (max "
-                     f"multiplicity {max(cs.values())}); the plain walker visited {len(set(pw.seen))}")
-        nc = NodeCountMapper()
-        for ei, a, kw in hist:
-            nc(pool[ei])
-        if nc.count != len(set(pw.seen)):
-            ctx.fail("C05.history", case, "nodecount:history",
-                     f"NodeCountMapper over the history counted {nc.count}, distinct nodes "
-                     f"{len(set(pw.seen))}")
+        probs = walks(same)
+        if probs:
+            finding = KF_TWINS if twins and not walks(typed) else None
+            for sig, detail in probs:
+                ctx.fail("C05.history", case, sig, detail, finding=finding)
     except (TypeError, NotImplementedError, ValueError):
         pass
 
@@ -347,9 +372,15 @@ def workload(ctx):
                    [tg.int(rng.randint(1, 3)) for _ in range(3)] + \
                    [4, 4.0, True, (4, V["x"]), (V["y"], 4.0), p.Call(V["f"], (4, 4.0, True))]
             pool += [G.deep_rebuild(pool[0]), pool[1]]
-            if type_ambiguous(pool):
-                ctx.count("pools_rejected_type_ambiguous")
-                continue
+            if i % 4 == 0:      # typed twins: == composites that differ in a constant's type
+                c1, c2 = rng.choice([(4, 4.0), (1, True), (0, False), (2.0, 2)])
+                sh = rng.choice([lambda c: p.Sum((V["x"], c)), lambda c: p.Power(c, 3),
+                                 lambda c: p.CommonSubexpression(p.Product((c, V["y"]))),
+                                 lambda c: p.Call(V["f"], (c,)), lambda c: (c, V["x"])])
+                pool += [sh(c1), p.Sum((sh(c2), 1)) if rng.random() < .5 and not isinstance(sh(c2), tuple)
+                         else sh(c2)]
+            if has_twins(*pool):
+                ctx.count("pools_with_typed_twins")
             hist = [(rng.randrange(len(pool)), rng.choice(ARGT),
                      rng.choice([{}, {}, {"suffix": "_s"}])) for _ in range(rng.randint(2, 30))]
             flags = dict(include_subscripts=rng.random() < .5, include_lookups=rng.random() < .5,
